@@ -9,6 +9,7 @@ from lib import clist, cstr, cz
 
 warnings.filterwarnings("ignore")
 N = {"quick": (600, 250, 300), "thorough": (12000, 4000, 5000)}     # merge cases, chain scripts, accept/reject probes
+NG = {"quick": 600, "thorough": 9000}                                 # guard cases (two chained extends)
 
 
 def cpair_list(d, ids):
@@ -69,6 +70,87 @@ def merge_correspondence(chk, n):
         chk.corr_break("correspondence case files failed to compile", errors[0])
     for i in failing[:3]:
         chk.corr_break("generated try_to_merge_ops disagrees with the implementation", meta[i])
+
+
+def c_wargs(one, part, order, rev):
+    return "(mkwargs %s %s %s %s)" % (lib.cbool(one), clist([cstr(c) for c in part]), clist([cstr(c) for c in order]), clist([cstr(c) for c in rev]))
+
+
+def c_wnode(n):
+    return "(mkwnode %s %s %s %s)" % (lib.cbool(bool(n.windowed_situation)), clist([cstr(c) for c in n.partition_by]),
+                                      clist([cstr(c) for c in n.order_by]), clist([cstr(c) for c in n.reverse]))
+
+
+def guard_correspondence(chk, n):
+    """two chained extend calls on the real builder: Model/MergeGuard.v must predict the window bookkeeping of the
+    nodes and whether extend_parsed_ merged the calls into one node"""
+    from data_algebra.data_ops import TableDescription
+    from data_algebra.view_representations import ExtendNode
+    from data_algebra.data_ops_utils import try_to_merge_ops
+    from data_algebra.expr_rep import implies_windowed
+    from data_algebra.expr_parse import parse_assignments_in_context
+    rng = chk.rng
+    cols = ["a", "b", "c", "g", "h"]
+    exprs = ["{v}.sum()", "{v}.max()", "{v}.mean()", "{v}.cumsum()", "{v}.shift()", "_row_number()", "_size()", "_count()",
+             "{v} + 1", "{v} * 2", "5", "{v}", "(-{v}) + {v}"]
+    parts = [None, None, 1, 1, ["g"], ["g"], ["h"], ["g", "h"]]
+    orders = [None, None, None, ["c"], ["c"], ["c", "b"]]
+
+    def draw_ops(avail, fresh):
+        ops = {}
+        for _ in range(rng.randint(1, 2)):
+            k = rng.choice(fresh) if rng.random() < 0.8 else rng.choice(["a", "b"])
+            ops[k] = rng.choice(exprs).format(v=rng.choice(avail))
+        return ops
+
+    def draw_window():
+        p, o = rng.choice(parts), rng.choice(orders)
+        r = [c for c in (o or []) if rng.random() < 0.3]
+        return p, o, r
+
+    def wargs(p, o, r):
+        return (p == 1, [] if (p is None or p == 1) else list(p), list(o or []), list(r or []))
+    terms, meta = [], []
+    tries = 0
+    while len(terms) < n and tries < n * 40:
+        tries += 1
+        t = TableDescription(table_name="d", column_names=cols)
+        ops1, (p1, o1, r1) = draw_ops(["a", "b"], ["x", "y", "z"]), draw_window()
+        if rng.random() < 0.6:
+            p2, o2, r2 = (p1 if rng.random() < 0.7 else rng.choice(parts)), o1, r1     # mostly compatible windows
+        else:
+            p2, o2, r2 = draw_window()
+        ops2 = draw_ops(["a", "b"] + ([k for k in ops1] if rng.random() < 0.15 else []), ["u", "v", "w", "x"])
+        desc = {"ops1": ops1, "window1": [p1, o1, r1], "ops2": ops2, "window2": [p2, o2, r2]}
+        try:
+            n1 = t.extend(ops1, partition_by=p1, order_by=o1, reverse=r1 or None)
+            parsed2 = parse_assignments_in_context(ops=ops2, view=n1)
+            top = n1.extend(ops2, partition_by=p2, order_by=o2, reverse=r2 or None)
+        except Exception as e:
+            chk.dist("guard:rejected:" + type(e).__name__)
+            continue
+        if not isinstance(n1, ExtendNode) or not isinstance(top, ExtendNode):
+            continue
+        merged = not isinstance(top.sources[0], ExtendNode)
+        mergeable = try_to_merge_ops(n1.ops, parsed2) is not None
+        desc.update({"merged": merged, "mergeable": mergeable, "node1": c_wnode(n1), "top": c_wnode(top)})
+        terms.append("(mkg %s %s %s %s %s %s %s %s %s)" % (
+            lib.cbool(implies_windowed(n1.ops)), c_wargs(*wargs(p1, o1, r1)), c_wnode(n1),
+            lib.cbool(implies_windowed(parsed2)), c_wargs(*wargs(p2, o2, r2)),
+            lib.cbool(mergeable), lib.cbool(merged), lib.cbool(implies_windowed(top.ops)), c_wnode(top)))
+        meta.append(desc)
+        chk.count(("guard", json.dumps(desc, sort_keys=True)), nontrivial=True)
+        chk.dist("guard:" + ("merged" if merged else ("kept apart, mergeable ops" if mergeable else "kept apart")))
+        if len(terms) <= 2:
+            chk.sample(desc)
+    pre = "From Coq Require Import List Bool String.\nImport ListNotations.\nOpen Scope string_scope.\nFrom DA Require Import Base.Cases Model.MergeGuard Model.MergeGuardCases.\nOpen Scope list_scope.\n"
+    failing, errors, nchecked = lib.run_case_files("C06g", pre, terms, "check_gcases", per_file=300)
+    chk.cov["correspondence_guard"] = {"what": "extend_parsed_ window test + ExtendNode window bookkeeping, real builder vs Model/MergeGuard.v",
+                                       "cases": len(terms), "checked_in_coq": nchecked, "disagreements": len(failing), "errors": errors[:2]}
+    if errors:
+        chk.corr_break("guard correspondence case files failed to compile", errors[0])
+    for i in failing[:3]:
+        chk.corr_break("Model/MergeGuard.v disagrees with extend_parsed_ / ExtendNode on two chained extends", meta[i])
 
 
 def targeted_merge_script(rng, g, colty, order):
@@ -237,7 +319,7 @@ def accept_reject(chk, n):
 
 def run(chk):
     n1, n2, n3 = N[chk.tier]
-    chk.prove(["G_MergeOps"], extra_vo=["theories/Model/MergeCases.vo"])
+    chk.prove(["G_MergeOps"], extra_vo=["theories/Model/MergeCases.vo", "theories/Model/MergeGuardCases.vo"])
     chk.cov["trusted_base"] = ["Coq 8.16.1 kernel + vm_compute", "tools/py2v.py translator (data_ops_utils.py -> Gen/G_MergeOps.v)",
                                "Model/Extend.v: reference meaning of one extend step (simultaneous assignment; column function local to the expression's columns and the window columns)",
                                "expr_rep.get_columns_used modelled as the union of the expressions' column sets (checked by the merge correspondence)",
@@ -251,6 +333,10 @@ def run(chk):
         merge_correspondence(chk, n1)
     else:
         chk.corr_break("Model/MergeCases.vo not built", "")
+    if os.path.exists(os.path.join(lib.COQ, "theories/Model/MergeGuardCases.vo")):
+        guard_correspondence(chk, NG[chk.tier])
+    else:
+        chk.corr_break("Model/MergeGuardCases.vo not built", "")
     corpus_scripts(chk)
     chain_vs_steps(chk, n2)
     accept_reject(chk, n3)
